@@ -76,6 +76,7 @@ class Fn:
         self.external_body = external_body
         self.sig_replace = sig_replace  # list of (pattern, template) applied to the signature only (rule E2)
         self.trusted_reason = trusted_reason
+        self.hide = ()  # spec functions hidden inside this function's body (proof engineering only)
         self.as_inherent = as_inherent  # method of `impl Trait for T` emitted as inherent method of T (call syntax unchanged)
 
     @property
@@ -265,7 +266,7 @@ def check_ghost(text, where):
             continue
         if t == 'let' and toks[i + 1].text == 'ghost':
             pass
-        elif t in ('assert', 'broadcast', 'reveal'):
+        elif t in ('assert', 'broadcast', 'reveal', 'hide'):
             pass
         else:
             raise ExtractError('non-ghost statement in insertion (%s): %r' % (where, text[toks[i].s:toks[i].s + 40]))
@@ -486,6 +487,8 @@ class Extractor:
                     edits.append((toks[ms].s, toks[me - 1].e, '', 'E5'))
                     self.log('E5', what, text[toks[ms].s:toks[me - 1].e], '(debug_assert dropped: absent from release builds)')
 
+            if f.hide:
+                edits.append((toks[bo].e, toks[bo].e, '\n' + ' '.join('hide(%s);' % h for h in f.hide) + '\n', 'E8:hide'))
             for e in f.edits:
                 if isinstance(e, Ins):
                     check_ghost(e.text, what)
